@@ -76,6 +76,11 @@ def _conc(x):
     return x if isinstance(x, int) else x.__index__()
 
 
+def _numeric_key(m):
+    if m.ty['args'][0]['prim'] not in ('int', 'nat', 'mutez', 'timestamp'):
+        raise Unsupported('collection operations on non-numeric keys (C14/C03)')
+
+
 def _cmp_int(a, b):
     if _truth(a < b):
         return -1
@@ -313,6 +318,54 @@ def run(code, stack: List[RV], env: Env, fuel: List[int] = None) -> List[RV]:
     elif p == 'GET' and args:
         (v,) = pop()
         push(_comb_get(v, int(args[0]['int'])))
+    elif p in ('GET', 'MEM') and len(stack) >= 2 and stack[1].ty['prim'] in ('map', 'set'):
+        # collections with numeric keys (kept in ascending order)
+        k, m = pop(2)
+        _numeric_key(m)
+        found = None
+        for e in m.abs[1:]:
+            ek, ev = (e[0], e[1]) if m.ty['prim'] == 'map' else (e, None)
+            if _truth(ek[1] == k.abs[1]):
+                found = (ek, ev)
+                break
+        if p == 'MEM':
+            push(RV(('bool', found is not None), BOOL))
+        elif m.ty['prim'] != 'map':
+            raise Unsupported('GET on a set')
+        else:
+            vt = m.ty['args'][1]
+            push(RV(('some', found[1]) if found is not None else ('none',), T('option', vt)))
+    elif p in ('UPDATE', 'GET_AND_UPDATE') and len(stack) >= 3 and stack[2].ty['prim'] in ('map', 'set'):
+        k, x, m = pop(3)
+        _numeric_key(m)
+        is_map = m.ty['prim'] == 'map'
+        if p == 'GET_AND_UPDATE' and not is_map:
+            raise Unsupported('GET_AND_UPDATE on a set')
+        keep, old = [], None
+        for e in m.abs[1:]:
+            ek = e[0] if is_map else e
+            if _truth(ek[1] == k.abs[1]):
+                old = e
+            else:
+                keep.append(e)
+        if is_map:
+            insert = (k.abs, x.abs[1]) if x.abs[0] == 'some' else None
+        else:
+            insert = k.abs if _truth(x.abs[1]) else None
+        if insert is not None:
+            pos = 0
+            for e in keep:
+                ek = e[0] if is_map else e
+                if _truth(ek[1] < k.abs[1]):
+                    pos += 1
+            keep.insert(pos, insert)
+        push(RV((m.ty['prim'],) + tuple(keep), m.ty))
+        if p == 'GET_AND_UPDATE':
+            push(RV(('some', old[1]) if old is not None else ('none',), T('option', m.ty['args'][1])))
+    elif p == 'EMPTY_MAP':
+        push(RV(('map',), T('map', args[0], args[1])))
+    elif p == 'EMPTY_SET':
+        push(RV(('set',), T('set', args[0])))
     elif p == 'UPDATE' and args:
         x, v = pop(2)
         push(_comb_update(v, int(args[0]['int']), x))
